@@ -13,6 +13,7 @@ UNITS = [
     (M, "ComponentType.process"),
     (P, "rule.process"),
     (M, "run_components"),
+    (M, "ComponentType.__init__@reset"),
     (M, "ComponentType.__init__@classify"),
     (M, "ComponentType.__init__@dependencies"),
 ]
@@ -20,15 +21,15 @@ REFINEMENTS = [
     ((M, "ComponentType.process"), ("Delegate", "process")),
     ((P, "rule.process"), ("Delegate", "process")),
 ]
-NOT_CARRIED = ["ComponentType.__init__: two windows of the body are under contract (classification of the declared dependencies into required / "
+NOT_CARRIED = ["ComponentType.__init__: three windows of the body are under contract (the three dependency lists start empty; classification of the declared dependencies into required / "
                "at-least-one / the ordered argument list; optional dependencies last; dependency set == members of the list). Not executed: the "
-               "*deps / **kwargs unpacking before them (`deps`, the entry values of the three lists are arbitrary), optional from kwargs, metadata, "
+               "*deps / **kwargs unpacking before them (`deps` is arbitrary), optional from kwargs, metadata, "
                "group, tags",
                "apply_configs / apply_default_enabled name-prefix matching",
                "datasource and parser calling conventions are their own contracts (C03), not the default positional binding"]
 
 
-def bounded(check):
+def _bounded0(check):
     """bounded stand-in / native witness search: the real dr.run on every small dependency graph against a reference evaluation"""
     import json, os, subprocess
     here = os.path.dirname(os.path.dirname(os.path.abspath(__file__)))
@@ -54,3 +55,8 @@ def bounded(check):
                   open(path, "w"), indent=1)
         out["replay"] = path
     return [out]
+
+
+def bounded(check):
+    from props._xcheck import xcheck
+    return list(_bounded0(check)) + [xcheck(check, ['dr'], 'dr')]
